@@ -94,8 +94,12 @@ func (cl *CachedLocations) Count() int {
 // any).  If the cached location has expired, it is removed from the
 // cache.
 //
-// A cached location is expired if it is not pending and its
-// expiration time is before the current time.
+// A cached location is expired if no request is using it (see
+// 'CachedLocation.Pending') and either its expiration time is before
+// the current time or it has no location (the load failed).
+//
+// With 'released' false the caller is counted as a user of the entry;
+// with 'released' true the caller is no longer counted.
 //
 // Assumes a lock for the CachedLocations.
 func (cls *CachedLocations) expire(ctx *Context, sys *System, name string, released bool) (*Location, bool) {
@@ -106,9 +110,13 @@ func (cls *CachedLocations) expire(ctx *Context, sys *System, name string, relea
 	dead := false
 	if have {
 		cl.Lock()
-		cl.Pending = !released
+		if !released {
+			cl.Pending++
+		} else if 0 < cl.Pending {
+			cl.Pending--
+		}
 		Log(INFO, ctx, "CachedLocations.expire", "name", name, "cached", "exists")
-		if cl.Pending || cl.Expires.After(time.Now()) {
+		if 0 < cl.Pending || (cl.Location != nil && cl.Expires.After(time.Now())) {
 			Log(INFO, ctx, "CachedLocations.expire", "name", name, "cached", "live")
 			loc = cl.Location
 		} else {
@@ -155,6 +163,7 @@ func (cls *CachedLocations) Open(ctx *Context, sys *System, name string, check b
 		Log(INFO, ctx, "CachedLocations.Open", "name", name, "expires", expires.String())
 		cl := &CachedLocation{
 			Expires: expires,
+			Pending: 1, // The caller.
 		}
 
 		if ttl != Never || ctl.CachePending {
@@ -203,7 +212,11 @@ func (cls *CachedLocations) Release(ctx *Context, sys *System, name string) erro
 type CachedLocation struct {
 	sync.Mutex
 	Expires time.Time
-	Pending bool
+
+	// Pending is the number of requests that have opened this
+	// entry and have not released it yet.  An entry does not
+	// expire while this count is positive.
+	Pending int
 	*Location
 }
 
@@ -283,12 +296,9 @@ func (cl *CachedLocation) Get(ctx *Context, sys *System, name string, checkExist
 	}
 	cl.Unlock()
 
-	// Remove from cache if location does not exist so the cache does not explode
-	if nil == cl.Location {
-		sys.CachedLocations.Lock()
-		delete(sys.CachedLocations.locs, name)
-		sys.CachedLocations.Unlock()
-	}
+	// An entry without a location (the location does not exist)
+	// is removed by 'expire' when the last request that uses the
+	// entry releases it, so the cache does not explode.
 
 	return loc, err
 }
@@ -792,6 +802,7 @@ func (sys *System) CreateLocation(ctx *Context, location string) (bool, error) {
 	atomic.AddUint64(&sys.stats.TotalCalls, uint64(1))
 
 	loc, err := sys.findLocation(ctx, location, false)
+	defer sys.releaseLocation(ctx, location)
 	ctx.SetLoc(loc)
 
 	var exists bool
@@ -862,9 +873,13 @@ func legalFactWithout(ctx *Context, fact string, prop string) error {
 
 // GetLocation implements core.LocationProvider.
 //
-// Just calls 'findLocation(,,false)'.
+// Calls 'findLocation(,,false)' and releases the location right away:
+// the caller cannot tell us when it is done with the location, and an
+// entry that is never released would never expire.
 func (sys *System) GetLocation(ctx *Context, name string) (*Location, error) {
-	return sys.findLocation(ctx, name, false)
+	loc, err := sys.findLocation(ctx, name, false)
+	sys.releaseLocation(ctx, name)
+	return loc, err
 }
 
 // findLocation is the main function for getting a location.
